@@ -273,3 +273,73 @@ def c03_unwind_full_before_revert(ctx, v):
             seen += 1 if steps else 0
         v.covers_total += 1
         v.covers_sat += 1 if seen else 0
+
+
+def c03_m_blockring_delete(ctx, v):
+    """BlockRing::delete_block(id, hash) (the chain-index half of rejecting a block) on a ring of 4
+    slots whose entries satisfy the ring invariant (an entry with id i lives in slot i mod 4; ids
+    are arbitrary u64, so also far beyond the ring size): the entry (id, hash) is removed, every
+    other entry of every slot stays, and the designation of a surviving entry is unchanged."""
+    body = ctx.body(r"blockring::<impl at [^>]*>::delete_block$")
+    from .models import as_enum, enum_is, payload
+    for layout in ([2, 1, 1, 1], [1, 1, 2, 1]):
+        ex = ctx.executor(loop_bound=6, inline="auto", max_paths=3000, no_inline=[r"PrintForLog", r"to_hex"])
+        ring, meta = _ring(ctx, ex, layout)
+        st = S.State()
+        items = ring.fields[ctx.field_index("BlockRing", "ring")].items
+        pre_some, pre_idx = [], []
+        for i, it in enumerate(items):
+            some, idx = _lc_entry(ctx, ex, it, *meta[i])
+            pre_some.append(some); pre_idx.append(idx)
+            st.pc.append(z3.Implies(some, z3.ULT(idx.bv, layout[i])))
+            for bid in meta[i][0]:
+                st.pc.append(z3.URem(bid.bv, z3.BitVecVal(4, 64)) == i)   # ring invariant
+        big = layout.index(2)
+        tid, th = meta[big][0][0], meta[big][1][0]           # delete entry 0 of the two-entry slot
+        oid, oh = meta[big][0][1], meta[big][1][1]
+        st.pc.append(z3.Or(tid.bv != oid.bv, z3.Not(value_eq(ex, th, oh))))   # the sibling is a different block
+        outs = ex.run(body, [S.Ref(S.Cell(ring), (), True), tid, th], st)
+        v.paths += len(outs)
+        seen = 0
+        for o in outs:
+            if o.kind in ("unsupported", "unwound", "path-limit"):
+                return v.undecided("%s %s" % (o.kind, o.info))
+            if o.kind == "panic":
+                r, m = ex.model_for(o.pc)
+                v.queries += 1
+                if r == z3.sat:
+                    v.fail("panic: %s" % o.info)
+                continue
+            if o.kind != "return":
+                continue
+            post = o.state.frames[0].locals["_1"].v.cell.v
+            pitems = post.fields[ctx.field_index("BlockRing", "ring")].items
+            slot = pitems[big]
+            pids = slot.fields[ctx.field_index("RingItem", "block_ids")].items
+            phs = slot.fields[ctx.field_index("RingItem", "block_hashes")].items
+            v.queries += 1
+            if len(pids) != 1:
+                r, m = ex.model_for(o.pc)
+                v.fail("the rejected block's (id, hash) is still in the chain index after delete_block (slot holds %d entries)" % len(pids),
+                       dict(block_id=m.eval(tid.bv, model_completion=True).as_long(), ring_size=4))
+                continue
+            r, m = ex.model_for(o.pc, z3.Or(pids[0].bv != oid.bv, z3.Not(value_eq(ex, phs[0], oh))))
+            v.queries += 1
+            if r == z3.sat:
+                v.fail("delete_block removed or altered the sibling entry instead of the requested one")
+            for i in range(4):
+                if i == big:
+                    continue
+                n_i = len(pitems[i].fields[ctx.field_index("RingItem", "block_ids")].items)
+                if n_i != layout[i]:
+                    v.fail("delete_block changed another slot")
+            # designation of the survivor
+            some, idx = _lc_entry(ctx, ex, slot, None, None)
+            was_survivor = z3.And(pre_some[big], pre_idx[big].bv == 1)
+            r, m = ex.model_for(o.pc, z3.Or(z3.And(was_survivor, z3.Or(z3.Not(some), idx.bv != 0)), z3.And(z3.Not(was_survivor), some)))
+            v.queries += 1
+            if r == z3.sat:
+                v.fail("after delete_block the slot's longest-chain designation does not follow the surviving entry")
+            seen += 1
+        v.covers_total += 1
+        v.covers_sat += 1 if seen else 0
